@@ -17,13 +17,17 @@
      GenIdOutsideLock      msg_id taken and the waiter registered before the send lock
      NotifyAllOnBadSalt    every registered waiter is told to retry, not only the rejected one
      StaleEntryAfterNotify the table entry of a notified waiter is kept
+     AbortContainerOnItemError  an item of a container the loop cannot process (a result nobody waits for,
+                           an unreadable object) ends the processing of the container: later items are lost
+     NoAckForUnknownResult a result nobody waits for is not acknowledged
    With Dev = {} the properties below hold (checked by TLC); each deviation alone breaks one.
 
    The same module generates schedules for the harness: `hist` records the controllable
    steps (caller start / release at the send gate, server answers, rotations). *)
 EXTENDS Integers, Sequences, FiniteSets, TLC
 
-CONSTANTS Callers, MaxTick, MaxRot, MaxAtt, FreshKey, Dev
+CONSTANTS Callers, MaxTick, MaxRot, MaxAtt, FreshKey, Dev,
+          MaxJunk   \* how many items nobody waits for the server may put into its answers
 
 VARIABLES clock, lastId,
           pc, mid, att, got,      \* per caller
@@ -31,9 +35,12 @@ VARIABLES clock, lastId,
           seqNo, tab,             \* tab: msg id -> channel (<<caller, attempt>> or the service channel)
           c2s, srvNext, srvSalt, srvAcc, srvDone,
           s2c, loop, salt, store,
+          junk,                   \* number of junk items sent so far
+          nCont,                  \* content-related server messages the loop has finished with
           hist
-vars == <<clock, lastId, pc, mid, att, got, lock, seqNo, tab, c2s, srvNext, srvSalt, srvAcc, srvDone, s2c, loop, salt, store, hist>>
-view == <<clock, lastId, pc, mid, att, got, lock, seqNo, tab, c2s, srvNext, srvSalt, srvAcc, srvDone, s2c, loop, salt, store>>
+vars == <<clock, lastId, pc, mid, att, got, lock, seqNo, tab, c2s, srvNext, srvSalt, srvAcc, srvDone, s2c, loop, salt, store, junk, nCont, hist>>
+view == <<clock, lastId, pc, mid, att, got, lock, seqNo, tab, c2s, srvNext, srvSalt, srvAcc, srvDone, s2c, loop, salt, store, junk, nCont>>
+aux == <<junk, nCont>>
 
 None == [t |-> "none"]
 Chan(c) == <<c, att[c]>>
@@ -50,10 +57,11 @@ Init ==
   /\ tab = IF FreshKey THEN (-1 :> SvcChan) ELSE <<>>
   /\ c2s = <<>> /\ srvNext = 1 /\ srvSalt = 0 /\ srvAcc = {} /\ srvDone = {}
   /\ s2c = <<>> /\ loop = [pc |-> "read"] /\ salt = 0 /\ store = 0
+  /\ junk = 0 /\ nCont = 0
   /\ hist = <<>>
 
 Tick == clock < MaxTick /\ clock' = clock + 1
-        /\ UNCHANGED <<lastId, pc, mid, att, got, lock, seqNo, tab, c2s, srvNext, srvSalt, srvAcc, srvDone, s2c, loop, salt, store, hist>>
+        /\ UNCHANGED aux /\ UNCHANGED <<lastId, pc, mid, att, got, lock, seqNo, tab, c2s, srvNext, srvSalt, srvAcc, srvDone, s2c, loop, salt, store, hist>>
 
 (* ---------------- callers: the send path ---------------- *)
 FreshId == IF clock > lastId THEN clock ELSE lastId + 1          \* strictly above everything issued
@@ -61,7 +69,7 @@ Begin(c) ==   \* take the send lock first (as specified)
   /\ ~Outside /\ pc[c] = "idle" /\ att[c] <= MaxAtt /\ lock = "none"
   /\ lock' = c /\ pc' = [pc EXCEPT ![c] = "genid"]
   /\ hist' = Append(hist, [a |-> "Call", c |-> c])
-  /\ UNCHANGED <<clock, lastId, mid, att, got, seqNo, tab, c2s, srvNext, srvSalt, srvAcc, srvDone, s2c, loop, salt, store>>
+  /\ UNCHANGED aux /\ UNCHANGED <<clock, lastId, mid, att, got, seqNo, tab, c2s, srvNext, srvSalt, srvAcc, srvDone, s2c, loop, salt, store>>
 GenId(c) ==
   /\ \/ ~Outside /\ pc[c] = "genid"
      \/ Outside /\ pc[c] = "idle" /\ att[c] <= MaxAtt
@@ -70,29 +78,29 @@ GenId(c) ==
      /\ lastId' = IF id > lastId THEN id ELSE lastId
   /\ pc' = [pc EXCEPT ![c] = "reg"]
   /\ hist' = IF Outside THEN Append(hist, [a |-> "Call", c |-> c]) ELSE hist
-  /\ UNCHANGED <<clock, att, got, lock, seqNo, tab, c2s, srvNext, srvSalt, srvAcc, srvDone, s2c, loop, salt, store>>
+  /\ UNCHANGED aux /\ UNCHANGED <<clock, att, got, lock, seqNo, tab, c2s, srvNext, srvSalt, srvAcc, srvDone, s2c, loop, salt, store>>
 Register(c) ==
   /\ pc[c] = "reg"
   /\ tab' = (mid[c] :> Chan(c)) @@ tab
   /\ pc' = [pc EXCEPT ![c] = IF Outside THEN "acquire" ELSE "write"]
-  /\ UNCHANGED <<clock, lastId, mid, att, got, lock, seqNo, c2s, srvNext, srvSalt, srvAcc, srvDone, s2c, loop, salt, store, hist>>
+  /\ UNCHANGED aux /\ UNCHANGED <<clock, lastId, mid, att, got, lock, seqNo, c2s, srvNext, srvSalt, srvAcc, srvDone, s2c, loop, salt, store, hist>>
 Acquire(c) ==
   /\ Outside /\ pc[c] = "acquire" /\ lock = "none"
   /\ lock' = c /\ pc' = [pc EXCEPT ![c] = "write"]
-  /\ UNCHANGED <<clock, lastId, mid, att, got, seqNo, tab, c2s, srvNext, srvSalt, srvAcc, srvDone, s2c, loop, salt, store, hist>>
+  /\ UNCHANGED aux /\ UNCHANGED <<clock, lastId, mid, att, got, seqNo, tab, c2s, srvNext, srvSalt, srvAcc, srvDone, s2c, loop, salt, store, hist>>
 Write(c) ==   \* write the frame, seq_no += 2, release the lock
   /\ pc[c] = "write" /\ lock = c
   /\ c2s' = Append(c2s, [id |-> mid[c], seq |-> seqNo + 1, salt |-> salt, who |-> c, kind |-> "req"])
   /\ seqNo' = seqNo + 2 /\ lock' = "none"
   /\ pc' = [pc EXCEPT ![c] = "wait"]
   /\ hist' = Append(hist, [a |-> "Release", c |-> c])
-  /\ UNCHANGED <<clock, lastId, mid, att, got, tab, srvNext, srvSalt, srvAcc, srvDone, s2c, loop, salt, store>>
+  /\ UNCHANGED aux /\ UNCHANGED <<clock, lastId, mid, att, got, tab, srvNext, srvSalt, srvAcc, srvDone, s2c, loop, salt, store>>
 Wake(c) ==    \* the caller took a value from its channel (placed there by the loop's rendezvous)
   /\ pc[c] = "woke"
   /\ IF got[c].t = "retry"
        THEN /\ pc' = [pc EXCEPT ![c] = "idle"] /\ att' = [att EXCEPT ![c] = @ + 1] /\ got' = [got EXCEPT ![c] = None]
        ELSE /\ pc' = [pc EXCEPT ![c] = "done"] /\ UNCHANGED <<att, got>>
-  /\ UNCHANGED <<clock, lastId, mid, lock, seqNo, tab, c2s, srvNext, srvSalt, srvAcc, srvDone, s2c, loop, salt, store, hist>>
+  /\ UNCHANGED aux /\ UNCHANGED <<clock, lastId, mid, lock, seqNo, tab, c2s, srvNext, srvSalt, srvAcc, srvDone, s2c, loop, salt, store, hist>>
 
 (* ---------------- conformant server ---------------- *)
 SrvRecv ==
@@ -103,17 +111,21 @@ SrvRecv ==
        THEN srvAcc' = srvAcc \cup {m.id} /\ UNCHANGED s2c
        ELSE s2c' = Append(s2c, [t |-> "badsalt", id |-> m.id, new |-> srvSalt, content |-> FALSE]) /\ UNCHANGED srvAcc
   /\ srvNext' = srvNext + 1
-  /\ UNCHANGED <<clock, lastId, pc, mid, att, got, lock, seqNo, tab, c2s, srvSalt, srvDone, loop, salt, store, hist>>
-SrvAnswer(S) ==   \* one message answering the requests S (a container when several)
-  /\ S # {} /\ S \subseteq srvAcc
-  /\ s2c' = Append(s2c, [t |-> "results", ids |-> S, content |-> TRUE])
+  /\ UNCHANGED aux /\ UNCHANGED <<clock, lastId, pc, mid, att, got, lock, seqNo, tab, c2s, srvSalt, srvDone, loop, salt, store, hist>>
+\* one message answering the requests S (a container when several); j: the container also holds an item
+\* nobody waits for (id 0: a repeated or unsolicited result, an object the client cannot read)
+SrvAnswer(S, j) ==
+  /\ (S # {} \/ j) /\ S \subseteq srvAcc
+  /\ j => junk < MaxJunk
+  /\ junk' = (IF j THEN junk + 1 ELSE junk) /\ UNCHANGED nCont
+  /\ s2c' = Append(s2c, [t |-> "results", ids |-> S \cup (IF j THEN {0} ELSE {}), content |-> TRUE])
   /\ srvAcc' = srvAcc \ S /\ srvDone' = srvDone \cup S
-  /\ hist' = Append(hist, [a |-> "Answer", who |-> {c2s[k].who : k \in {j \in 1..Len(c2s) : c2s[j].id \in S}}])
+  /\ hist' = Append(hist, [a |-> "Answer", who |-> {c2s[k].who : k \in {n \in 1..Len(c2s) : c2s[n].id \in S}}, junk |-> j])
   /\ UNCHANGED <<clock, lastId, pc, mid, att, got, lock, seqNo, tab, c2s, srvNext, srvSalt, loop, salt, store>>
 SrvRotate ==
   /\ srvSalt < MaxRot /\ srvSalt' = srvSalt + 1
   /\ hist' = Append(hist, [a |-> "Rotate"])
-  /\ UNCHANGED <<clock, lastId, pc, mid, att, got, lock, seqNo, tab, c2s, srvNext, srvAcc, srvDone, s2c, loop, salt, store>>
+  /\ UNCHANGED aux /\ UNCHANGED <<clock, lastId, pc, mid, att, got, lock, seqNo, tab, c2s, srvNext, srvAcc, srvDone, s2c, loop, salt, store>>
 
 (* ---------------- receive loop ---------------- *)
 Keys == DOMAIN tab
@@ -124,14 +136,14 @@ LoopRead ==
   /\ LET m == Head(s2c) IN
      /\ s2c' = Tail(s2c)
      /\ IF m.t = "results"
-          THEN /\ \E o \in Orders(m.ids) : loop' = [pc |-> "items", todo |-> o, ack |-> m.content]
+          THEN /\ \E o \in Orders(m.ids) : loop' = [pc |-> "items", todo |-> o, ack |-> m.content, content |-> m.content]
                /\ UNCHANGED <<salt, store>>
           ELSE \* bad_server_salt: adopt and persist the salt, then tell waiter(s) to retry
                /\ salt' = m.new /\ store' = m.new
                /\ IF "NotifyAllOnBadSalt" \in Dev
-                    THEN \E o \in Orders(Keys) : loop' = [pc |-> "notify", todo |-> o, ack |-> FALSE]
-                    ELSE loop' = [pc |-> "notify", todo |-> IF m.id \in Keys THEN <<m.id>> ELSE <<>>, ack |-> FALSE]
-  /\ UNCHANGED <<clock, lastId, pc, mid, att, got, lock, seqNo, tab, c2s, srvNext, srvSalt, srvAcc, srvDone, hist>>
+                    THEN \E o \in Orders(Keys) : loop' = [pc |-> "notify", todo |-> o, ack |-> FALSE, content |-> FALSE]
+                    ELSE loop' = [pc |-> "notify", todo |-> IF m.id \in Keys THEN <<m.id>> ELSE <<>>, ack |-> FALSE, content |-> FALSE]
+  /\ UNCHANGED aux /\ UNCHANGED <<clock, lastId, pc, mid, att, got, lock, seqNo, tab, c2s, srvNext, srvSalt, srvAcc, srvDone, hist>>
 ReaderOf(ch) == {c \in Callers : pc[c] = "wait" /\ Chan(c) = ch}
 \* hand a result to the caller registered for the request id and forget the entry; a result nobody is
 \* registered for is dropped (as specified) - the loop never blocks on it
@@ -144,8 +156,14 @@ LoopDeliver ==
                  /\ pc' = [pc EXCEPT ![c] = "woke"]
             /\ tab' = [k \in Keys \ {id} |-> tab[k]]
        ELSE UNCHANGED <<got, pc, tab>>
-  /\ loop' = [loop EXCEPT !.todo = Tail(@)]
-  /\ UNCHANGED <<clock, lastId, mid, att, lock, seqNo, c2s, srvNext, srvSalt, srvAcc, srvDone, s2c, salt, store, hist>>
+  /\ LET id == Head(loop.todo) IN
+     loop' = IF id \in Keys THEN [loop EXCEPT !.todo = Tail(@)]
+             \* as coded: the error of one item ends the processing of the whole container
+             ELSE IF "AbortContainerOnItemError" \in Dev THEN [loop EXCEPT !.todo = <<>>, !.ack = FALSE]
+             \* as coded: a result nobody waits for is an error before the acknowledgement is sent
+             ELSE IF "NoAckForUnknownResult" \in Dev THEN [loop EXCEPT !.todo = Tail(@), !.ack = FALSE]
+             ELSE [loop EXCEPT !.todo = Tail(@)]
+  /\ UNCHANGED aux /\ UNCHANGED <<clock, lastId, mid, att, lock, seqNo, c2s, srvNext, srvSalt, srvAcc, srvDone, s2c, salt, store, hist>>
 LoopNotify ==
   /\ loop.pc = "notify" /\ loop.todo # <<>>
   /\ LET k == Head(loop.todo) IN
@@ -154,7 +172,7 @@ LoopNotify ==
           /\ pc' = [pc EXCEPT ![c] = "woke"]
      /\ tab' = IF "StaleEntryAfterNotify" \in Dev THEN tab ELSE [j \in Keys \ {k} |-> tab[j]]
   /\ loop' = [loop EXCEPT !.todo = Tail(@)]
-  /\ UNCHANGED <<clock, lastId, mid, att, lock, seqNo, c2s, srvNext, srvSalt, srvAcc, srvDone, s2c, salt, store, hist>>
+  /\ UNCHANGED aux /\ UNCHANGED <<clock, lastId, mid, att, lock, seqNo, c2s, srvNext, srvSalt, srvAcc, srvDone, s2c, salt, store, hist>>
 \* end of a message: acknowledge it if it was content-related (through the send path), else read on
 LoopEnd ==
   /\ loop.pc \in {"items", "notify"} /\ loop.todo = <<>>
@@ -164,16 +182,17 @@ LoopEnd ==
             /\ lastId' = FreshId /\ seqNo' = seqNo + 2
        ELSE UNCHANGED <<c2s, lastId, seqNo>>
   /\ loop' = [pc |-> "read"]
+  /\ nCont' = (IF loop.content THEN nCont + 1 ELSE nCont) /\ UNCHANGED junk
   /\ UNCHANGED <<clock, pc, mid, att, got, lock, tab, srvNext, srvSalt, srvAcc, srvDone, s2c, salt, store, hist>>
 
 Finished == (\A c \in Callers : pc[c] = "done" \/ att[c] > MaxAtt) /\ UNCHANGED vars
 Next ==
   \/ Finished \/ Tick \/ SrvRecv \/ SrvRotate \/ LoopRead \/ LoopDeliver \/ LoopNotify \/ LoopEnd
   \/ \E c \in Callers : Begin(c) \/ GenId(c) \/ Register(c) \/ Acquire(c) \/ Write(c) \/ Wake(c)
-  \/ \E S \in SUBSET srvAcc : SrvAnswer(S)
+  \/ \E S \in SUBSET srvAcc, j \in BOOLEAN : SrvAnswer(S, j)
 Fair == /\ WF_vars(SrvRecv) /\ WF_vars(LoopRead) /\ WF_vars(LoopDeliver) /\ WF_vars(LoopNotify) /\ WF_vars(LoopEnd)
         /\ \A c \in Callers : WF_vars(Begin(c) \/ GenId(c) \/ Register(c) \/ Acquire(c) \/ Write(c) \/ Wake(c))
-        /\ WF_vars(\E S \in SUBSET srvAcc : SrvAnswer(S))
+        /\ WF_vars(\E S \in SUBSET srvAcc : S # {} /\ SrvAnswer(S, FALSE))
 Spec == Init /\ [][Next]_vars /\ Fair
 
 (* ---------------- properties ---------------- *)
@@ -193,6 +212,8 @@ NoStallNotify == loop.pc = "notify" /\ loop.todo # <<>> =>
    \E c \in Callers : Chan(c) = tab[Head(loop.todo)] /\ pc[c] \in {"wait", "write", "acquire", "reg"}
 NoStallDeliver == loop.pc = "items" /\ loop.todo # <<>> /\ Head(loop.todo) \in Keys =>
    \E c \in Callers : Chan(c) = tab[Head(loop.todo)] /\ pc[c] \in {"wait", "write"}
+\* C10: every content-related message the loop has finished with was acknowledged
+AckedAll == loop.pc = "read" => Cardinality({k \in 1..Len(c2s) : c2s[k].kind = "ack"}) = nCont
 \* liveness: every caller gets its answer, the loop keeps reading
 AllDone == <>(\A c \in Callers : pc[c] = "done")
 LoopKeepsReading == []<>(loop.pc = "read")
